@@ -40,7 +40,7 @@ impl QSpec {
     pub fn new(mode: Mode, p: f64, alpha_name: &str) -> QSpec {
         QSpec { mode, p, alpha_name: alpha_name.into(), alpha: alphabet(alpha_name), trend: 0.0 }
     }
-    fn judge(&self, t: &QState) -> Vec<Violation> {
+    pub fn judge(&self, t: &QState) -> Vec<Violation> {
         let mut out = Vec::new();
         let q = match &t.q {
             Err(m) => {
